@@ -1,5 +1,25 @@
+import Mathlib.Tactic.IntervalCases
 import Check.Grey
+import Check.Grey2
 import Model.Types
+import Props.C06
+import Props.C03
+import Props.C16b.X_0
+import Props.C16b.X_1
+import Props.C16b.X_2
+import Props.C16b.X_3
+import Props.C16b.X_4
+import Props.C16b.X_5
+import Props.C16b.X_6
+import Props.C16b.X_7
+import Props.C16b.X_8
+import Props.C16b.X_9
+import Props.C16b.X_10
+import Props.C16b.X_11
+import Props.C16b.X_12
+import Props.C16b.X_13
+import Props.C16b.X_14
+import Props.C16b.X_15
 import Props.C16.G_false_BT709
 import Props.C16.G_false_BT470M
 import Props.C16.G_false_BT470BG
@@ -66,5 +86,84 @@ theorem decodeGrey_is_decode (fm : Bool) (inv : M3) (bd : Nat) (full : Bool) (Y 
       M3.mulArr fm inv ⟨toF32Luma Y (scaleOffset true bd full false).1 (scaleOffset true bd full false).2,
         toF32Chroma (2 ^ (bd - 1)) (scaleOffset true bd full true).1 (scaleOffset true bd full true).2,
         toF32Chroma (2 ^ (bd - 1)) (scaleOffset true bd full true).1 (scaleOffset true bd full true).2⟩ := rfl
+
+
+/-! ### linear grey -> XYB and -> HSL, every level i / 2^20 (exhaustive, native_decide in 16 slices) -/
+open CheckGrey2 in
+theorem xyb_grey (i : Nat) (hi : i ≤ 1048576) : xybGreyOk i = true := by
+  have h : i / 65536 < 17 := by omega
+  have hlo : (i / 65536) * 65536 ≤ i := Nat.div_mul_le_self i 65536
+  have hhi : i < (i / 65536) * 65536 + 65536 := Nat.lt_div_mul_add (by decide)
+  interval_cases hq : i / 65536
+  · exact allFrom_spec _ _ _ xyb_slice_0 i (by omega) (by omega)
+  · exact allFrom_spec _ _ _ xyb_slice_1 i (by omega) (by omega)
+  · exact allFrom_spec _ _ _ xyb_slice_2 i (by omega) (by omega)
+  · exact allFrom_spec _ _ _ xyb_slice_3 i (by omega) (by omega)
+  · exact allFrom_spec _ _ _ xyb_slice_4 i (by omega) (by omega)
+  · exact allFrom_spec _ _ _ xyb_slice_5 i (by omega) (by omega)
+  · exact allFrom_spec _ _ _ xyb_slice_6 i (by omega) (by omega)
+  · exact allFrom_spec _ _ _ xyb_slice_7 i (by omega) (by omega)
+  · exact allFrom_spec _ _ _ xyb_slice_8 i (by omega) (by omega)
+  · exact allFrom_spec _ _ _ xyb_slice_9 i (by omega) (by omega)
+  · exact allFrom_spec _ _ _ xyb_slice_10 i (by omega) (by omega)
+  · exact allFrom_spec _ _ _ xyb_slice_11 i (by omega) (by omega)
+  · exact allFrom_spec _ _ _ xyb_slice_12 i (by omega) (by omega)
+  · exact allFrom_spec _ _ _ xyb_slice_13 i (by omega) (by omega)
+  · exact allFrom_spec _ _ _ xyb_slice_14 i (by omega) (by omega)
+  · exact allFrom_spec _ _ _ xyb_slice_15 i (by omega) (by omega)
+  · exact allFrom_spec _ _ _ xyb_slice_15 i (by omega) (by omega)
+
+open CheckGrey2 in
+theorem hsl_grey (i : Nat) (hi : i ≤ 1048576) : hslGreyOk i = true := by
+  have h : i / 65536 < 17 := by omega
+  have hlo : (i / 65536) * 65536 ≤ i := Nat.div_mul_le_self i 65536
+  have hhi : i < (i / 65536) * 65536 + 65536 := Nat.lt_div_mul_add (by decide)
+  interval_cases hq : i / 65536
+  · exact allFrom_spec _ _ _ hsl_slice_0 i (by omega) (by omega)
+  · exact allFrom_spec _ _ _ hsl_slice_1 i (by omega) (by omega)
+  · exact allFrom_spec _ _ _ hsl_slice_2 i (by omega) (by omega)
+  · exact allFrom_spec _ _ _ hsl_slice_3 i (by omega) (by omega)
+  · exact allFrom_spec _ _ _ hsl_slice_4 i (by omega) (by omega)
+  · exact allFrom_spec _ _ _ hsl_slice_5 i (by omega) (by omega)
+  · exact allFrom_spec _ _ _ hsl_slice_6 i (by omega) (by omega)
+  · exact allFrom_spec _ _ _ hsl_slice_7 i (by omega) (by omega)
+  · exact allFrom_spec _ _ _ hsl_slice_8 i (by omega) (by omega)
+  · exact allFrom_spec _ _ _ hsl_slice_9 i (by omega) (by omega)
+  · exact allFrom_spec _ _ _ hsl_slice_10 i (by omega) (by omega)
+  · exact allFrom_spec _ _ _ hsl_slice_11 i (by omega) (by omega)
+  · exact allFrom_spec _ _ _ hsl_slice_12 i (by omega) (by omega)
+  · exact allFrom_spec _ _ _ hsl_slice_13 i (by omega) (by omega)
+  · exact allFrom_spec _ _ _ hsl_slice_14 i (by omega) (by omega)
+  · exact allFrom_spec _ _ _ hsl_slice_15 i (by omega) (by omega)
+  · exact allFrom_spec _ _ _ hsl_slice_15 i (by omega) (by omega)
+
+/-- the checked XYB pixel is the model's `Xyb::from(LinearRgb)` pixel function for any build with fastmath on -/
+theorem xyb_build_indep (B : Build) (hB : B.fastmath = true) (p : V3) : PixelM.lrgbToXyb B p = PixelM.lrgbToXyb CheckGrey2.fastB p := by
+  unfold PixelM.lrgbToXyb MathM.cbrtf
+  simp [hB, CheckGrey2.fastB]
+
+/-! ### every primaries conversion maps greys to greys (corollary of C06.prim_close: exact row sums are 1) -/
+open F32 C01 CheckPrim in
+theorem prim_grey (fm : Bool) (p : CP) (hp : p ∈ prims10) (to709 : Bool) (v : Nat) (hv : Bnd v 2) :
+    ∃ t, PixelM.primariesMatrix fm (if to709 then p else .BT709) (if to709 then .BT709 else p) = .ok (some t) ∧
+      (let o := M3.mulArr fm t ⟨v, v, v⟩
+       |toReal o.x - toReal v| ≤ 1 / 100000 ∧ |toReal o.y - toReal v| ≤ 1 / 100000 ∧ |toReal o.z - toReal v| ≤ 1 / 100000) := by
+  obtain ⟨t, s, ht, _, hc, hs⟩ := C06.prim_close fm p hp to709 ⟨v, v, v⟩ hv hv hv
+  refine ⟨t, ht, ?_⟩
+  dsimp only at hc ⊢
+  have e1 : qR s.r1.x * toReal v + (qR s.r1.y * toReal v + qR s.r1.z * toReal v) = toReal v := by
+    have : qR s.r1.x * toReal v + (qR s.r1.y * toReal v + qR s.r1.z * toReal v) = (qR s.r1.x + qR s.r1.y + qR s.r1.z) * toReal v := by ring
+    rw [this, hs.1, one_mul]
+  have e2 : qR s.r2.x * toReal v + (qR s.r2.y * toReal v + qR s.r2.z * toReal v) = toReal v := by
+    have : qR s.r2.x * toReal v + (qR s.r2.y * toReal v + qR s.r2.z * toReal v) = (qR s.r2.x + qR s.r2.y + qR s.r2.z) * toReal v := by ring
+    rw [this, hs.2.1, one_mul]
+  have e3 : qR s.r3.x * toReal v + (qR s.r3.y * toReal v + qR s.r3.z * toReal v) = toReal v := by
+    have : qR s.r3.x * toReal v + (qR s.r3.y * toReal v + qR s.r3.z * toReal v) = (qR s.r3.x + qR s.r3.y + qR s.r3.z) * toReal v := by ring
+    rw [this, hs.2.2, one_mul]
+  rw [e1] at hc; rw [e2] at hc; rw [e3] at hc
+  exact ⟨hc.1.2, hc.2.1.2, hc.2.2.2⟩
+
+/-- curve anchors (0 -> 0 within 1e-6, 1 -> 1 within budget) for every non-log curve: `C03.anchors` -/
+theorem curve_anchors : ∀ fm : Bool, ∀ t ∈ C03.nonLog, C03.anchorsOk fm t = true := C03.anchors
 
 end C16
